@@ -237,7 +237,7 @@ def inject(src, fnspecs, fname, warnings):
             edits.append((f.item_start, f.body_close + 1, inj('/* dropped: %s */' % tag)))
             continue
         # markers for classification
-        edits.append((f.body_open + 1, f.body_open + 1, inj('/*@FN %s props=%s sem=%s@*/' % (tag, ','.join(sp.props), ','.join(sp.sem)))))
+        edits.append((f.body_open + 1, f.body_open + 1, inj('/*@FN %s props=%s sem=%s%s@*/' % (tag, ','.join(sp.props), ','.join(sp.sem), ' ext=1' if 'external_body' in sp.flags else ''))))
         edits.append((f.body_close, f.body_close, inj('/*@ENDFN %s@*/' % tag)))
         if 'external_body' in sp.flags:
             edits.append((f.item_start, f.item_start, inj('#[verifier::external_body] ')))
